@@ -439,6 +439,31 @@ else:
         units=list(_C21_SENTINEL_UNITS),
     )
 
+# C19 routing half, C20 and the cluster part of C21: bubble checks of the cluster client (harness/cluster)
+PROPS["C19"]["units"].append(U("harness", "cluster", "TestVerif_C19_Routing", T(500, timeout=300), T(4000, shards=16, timeout=1500), variants=QUEUES))
+PROPS["C19"]["technique"] += "; routing: property-based testing (rapid) of generated timed plans (topologies, keyed commands, slot moves, migrations, contradicting node views, kills, failovers) against a wire-level fake Redis Cluster inside a testing/synctest bubble; oracle = per-node server log against the topology answers the client received (parsed by the test)"
+PROPS["C19"]["level_text"] += " Routing: 2-5 primaries x 0-2 replicas with holes in the slot space, CLUSTER SLOTS or SHARDS by server version; Do/DoCache/DoMulti/DoMultiCache of uniquely tagged keyed commands; MOVED (also to nodes the client does not know), ASK during migrations, redirect loops with MaxMovedRedirections 0-3; the first send of every command must go to the primary listed for its slot in an answer the client held, redirects must be followed to the named node (ASK: right after ASKING on the same connection), the caller must get the reply to the last send, and a redirect error is only returned after exactly MaxMovedRedirections redirects."
+PROPS["C19"]["level_note"] = PROPS["C19"]["level_note"].replace("routing, MOVED/ASK and redirect limits are covered by the cluster bubble check when present. ", "") + " Routing unit: the client runs in pipelining mode (AlwaysPipelining) so that the write instants of CLUSTER requests identify refresh rounds; which answer of a round the client adopted cannot be observed, so every answer that is not certainly out of date is accepted as the client's topology (old and new owner are both accepted while a change is being learned). In plans with a killed node or a fired deadline the redirect-follow clauses are not asserted (the send that followed a redirect may have been lost on a closed connection). The fake cluster does not move data and checks transaction members when they are queued, not again at EXEC."
+
+PROPS["C20"] = dict(
+    level="exploration",
+    technique="property-based testing (rapid) of generated timed plans (overlapping callers, multi-node batches, cached batches, MULTI..EXEC blocks, slot moves, migrations, contradicting node views, kills, scripted retryable errors) against a wire-level fake Redis Cluster inside a testing/synctest bubble; oracle = per-connection server log (transaction spans) + per-position identity of uniquely tagged replies",
+    level_text="1-4 overlapping callers x 1-4 calls: DoMulti of 2-7 uniquely tagged keyed commands over 3-6 slots, DoMultiCache of 2-6 reads, single-slot batches with 1-2 MULTI..EXEC blocks and loose commands around them, while slots move, migrate (ASK for a generated subset of keys), nodes disagree (redirect loops), die, or answer TRYAGAIN/LOADING/CLUSTERDOWN. Result i must be the servers' reply to the last send of command i; every MULTI..EXEC span read on a server connection must hold exactly the members of one block in order and be complete; no member may travel outside a span; with an unlimited redirect budget no member may end as a redirect error.",
+    level_note="A batch that contains MULTI/EXEC must keep to one slot (the cluster client panics otherwise by design), so transactions are generated in single-slot batches. The fake checks transaction members when they are queued, not again at EXEC. Which node a redirected block is sent to is the subject of C19. " + LIMITS,
+    units=[U("harness", "cluster", "TestVerif_C20_Batches", T(400, timeout=300), T(3000, shards=16, timeout=1500), variants=QUEUES)],
+)
+
+PROPS["C21"]["units"].append(U("harness", "cluster", "TestVerif_C21_ClusterReplicas", T(400, timeout=300), T(3000, shards=16, timeout=1500), variants=QUEUES))
+PROPS["C21"]["level_text"] += " Cluster client: generated topologies (2-5 primaries x 0-2 replicas), SendToReplicas predicates over command name, slot and tag, default selector / ReplicaSelector / ReadNodeSelector answering valid, zero, negative and too large indexes per slot, ReplicaOnly, and Do/DoMulti/DoCache/DoMultiCache/DoStream traffic; the first send of a command whose predicate is false must reach the primary listed for its slot, and so must a replica-eligible command whose selector answer is out of range."
+
+PROPS["C34"] = dict(
+    level="exploration",
+    technique="property-based testing (rapid) of timed plans in a synctest bubble: 2-4 rueidislock lockers with their own clients (client-side-caching invalidations, real Lua lock scripts executed by the fake server) contending for 1-2 names, with releases, external key deletions / PEXPIRE / FLUSHALL, forced takeovers, connection kills and Locker.Close; oracle = server-side truth (value of every lock key over time from the server log, every lock script observed at execution together with the liveness of all lock contexts) against the observed lock contexts",
+    level_text="Generated interleavings of up to 6 actors (several may share one Locker) x 3 lock calls with KeyMajority 1-3, KeyValidity 200-2000 ms, NoLoopTracking and FallbackSETPX on/off and script latency 0.1-1 ms. A granted lock must have had its value in a majority of the keys; a lock context must be done when the server executes a release that breaks its majority, and within 5 ms (+ 20 script latencies) after its value left the majority; without ForceWithContext two holders are live together only if the first had already lost its majority; a WithContext call must not wait until its deadline (all hold times + 10 validity periods).",
+    level_note="Invalidation delivery is the fake server's: PEXPIREAT does not emit an invalidation (Redis does; without NOLOOP that would make every extension re-trigger itself). Server latency is never 0: a waiter that takes a free minority key, fails and releases it wakes itself up through its own invalidation and would spin at one virtual instant. Losses within 50 ms after a connection kill are not judged for promptness (partition). DisableCache (polling) mode is not exercised. The test runs on one P because of a Go 1.25.0 runtime defect (bubble specials allocated without mheap_.speciallock). " + LIMITS,
+    units=[U("harness", "props", "TestVerif_C34_Lock", T(1000, timeout=300), T(5000, shards=16, timeout=1500))],
+)
+
 # ---- END PROPS (new entries go above this line)
 
 # every property without a check is listed here with its reason (kept current while building)
